@@ -69,6 +69,7 @@ def main():
     ap = argparse.ArgumentParser()
     ap.add_argument("--only")
     ap.add_argument("--name")
+    ap.add_argument("--prefix", help="only seeds whose name starts with this (e.g. r2)")
     ap.add_argument("--props")
     ap.add_argument("--jobs", type=int, default=3)
     ap.add_argument("--tier", default="quick")
@@ -80,6 +81,8 @@ def main():
         if a.only and prop not in a.only.split(","):
             continue
         if a.name and name != a.name:
+            continue
+        if a.prefix and not name.startswith(a.prefix):
             continue
         cps = [prop] + [p for p in (a.props.split(",") if a.props else []) if p != prop]
         jobs.append((prop, name, cps))
